@@ -53,6 +53,11 @@ fn check_bracket_closed(chars: impl Iterator<Item = char>) -> bool {
     count <= 0
 }
 
+#[cfg(ruschm_verif)]
+pub fn verif_check_bracket_closed(text: &str) -> bool {
+    check_bracket_closed(text.chars())
+}
+
 pub fn run() {
     // currently rust is lack of higher kind type (HKT), so we need write f32 twice
     let it = Interpreter::<f32>::new_with_stdlib();
